@@ -50,20 +50,26 @@ def handle (ws : List String) : String :=
     | none => "bad-op"
   | ["hms", k] =>
     match k.toInt? with
-    | some k => let n := hmsWrap k; hmsString (Gen.C17.hmsH n) (Gen.C17.hmsM n) (Gen.C17.hmsCs n)
+    | some k => let n := (Gen.C17.hmsWrapZ k).toNat; hmsString (Gen.C17.hmsH n) (Gen.C17.hmsM n) (Gen.C17.hmsCs n)
     | none => "bad-op"
   | "parse" :: kind :: rest =>
     let s := " ".intercalate rest
-    match dec2dec (α := Float) dec2decPosHand Gen.C17.dec2decNeg s with
+    match dec2dec (α := Float) Gen.C17.dec2decPos Gen.C17.dec2decNeg s with
     | .error e => showErr e
     | .ok v => if kind == "ra" then s!"ok {showFloat (Gen.C17.ra2decScale v)}" else s!"ok {showFloat v}"
   | ["parsex", kind, hx] =>    -- the same, the string given as hex bytes ("-" = empty string)
     match unhex hx with
     | none => "bad-op"
     | some s =>
-      match dec2dec (α := Float) dec2decPosHand Gen.C17.dec2decNeg s with
+      match dec2dec (α := Float) Gen.C17.dec2decPos Gen.C17.dec2decNeg s with
       | .error e => showErr e
       | .ok v => if kind == "ra" then s!"ok {showFloat (Gen.C17.ra2decScale v)}" else s!"ok {showFloat v}"
+  | ["fmtx", kind, x] =>       -- the whole formatter: glue over the regenerated pieces, at Float
+    match parseFloat? x with
+    | some x =>
+      if kind == "dms" then dec2dmsGlue Gen.C17.dmsScaled Gen.C17.dmsD Gen.C17.dmsM Gen.C17.dmsCs x
+      else dec2hmsGlue Gen.C17.hmsScaled Gen.C17.hmsWrapZ Gen.C17.hmsH Gen.C17.hmsM Gen.C17.hmsCs x
+    | none => "bad-op"
   | ["pdms", x] =>          -- the pinned Float formatter (negation witness model)
     match parseFloat? x with
     | some x => let (neg, d, m, cs) := pinnedDms x; dmsString neg d m cs
